@@ -70,6 +70,8 @@ inductive Obs
   | recv (i : Nat) (w : VId) (nameOk : Bool)
   | idle (i : Nat)
   | close (i : Nat)
+  | stall (i : Nat)       -- the reader of stream i stops calling Recv: it no longer keeps up, nothing is owed to it
+  | resume (i : Nat)      -- the reader of stream i has read what was waiting for it and keeps up again: the stream has to have ENDED on the register (`quiesce`)
   | bad (cls : String)    -- panics, errors on Get/open, stream ended: never produced by the model
 
 inductive Verdict
@@ -190,6 +192,14 @@ def accept (a : Acc) : Obs → Acc × Verdict
       | .ok => (a, .ok)
       | v => ({ a with streams := setAt a.streams i fun s => { s with queue := [] } }, v)
   | .close i => ({ a with streams := setAt a.streams i fun s => { s with live := false, queue := [] } }, .ok)
+  | .stall i =>
+    -- "whose reader keeps up" no longer applies: every value announced from now on is an optional entry (the resource
+    -- keeps only the latest value for a slow subscriber: `Slow.lean`, any subsequence may arrive later)
+    ({ a with streams := setAt a.streams i fun s => { s with established := false } }, .ok)
+  | .resume i =>
+    -- the reader has caught up: nothing announced during the stall is expected any more; the subscription exists (it
+    -- delivered before the stall): the stream is judged again, `quiesce` requires it to have ended on the register
+    ({ a with streams := setAt a.streams i fun s => { s with established := true, queue := [] } }, .ok)
   | .bad cls => (a, .reject cls)
 
 end ScVerif.C14
